@@ -1,6 +1,7 @@
 package cmd
 
 import (
+	"errors"
 	goio "io"
 	"math/rand"
 	"os"
@@ -30,6 +31,11 @@ If the number of desired trees is > number of input trees:
 		var treechan <-chan tree.Trees
 
 		totaltrees := 0
+		if numtrees < 0 {
+			err = errors.New("The number of trees to sample must not be negative")
+			io.LogError(err)
+			return
+		}
 		outtrees := make([]*tree.Tree, numtrees)
 
 		if treefile, treechan, err = readTrees(intreefile); err != nil {
